@@ -421,6 +421,27 @@ def _run_one(args):
         return {'name': m['name'], 'new': [], 'error': '%s: %s' % (type(e).__name__, e), 'wall': round(time.time() - t0, 2)}
 
 
+def tree_digests():
+    """sha256 of every source file a mutant edits"""
+    import hashlib
+    out = {}
+    for rel, src in sorted(_sources().items()):
+        if src is not None:
+            out[rel] = hashlib.sha256(src.encode('utf-8')).hexdigest()
+    return out
+
+
+def validated_tree():
+    """digests recorded by tools/selftest_all.py when the whole catalogue last passed"""
+    import json
+    p = os.path.join(os.path.dirname(os.path.dirname(os.path.abspath(__file__))), 'tables', 'selftest_validated.json')
+    try:
+        with open(p) as f:
+            return json.load(f).get('digests', {})
+    except (OSError, ValueError):
+        return {}
+
+
 def run(prop, rids, tier, seed, base_obs=None):
     from . import registry
     sources = _sources()
@@ -476,5 +497,14 @@ def run(prop, rids, tier, seed, base_obs=None):
             else:
                 nt += 1
                 detail.append({'mutant': m['name'], 'kind': 'twin', 'silent': True, 'wall_s': r['wall']})
+    # The catalogue is validated against one particular tree (tools/selftest_all.py records its digests).  On a tree
+    # that differs from it in a file some mutant edits, an unexpected mutant result says nothing reliable about
+    # the checker (the edit may interact with the local change): it is reported, but it is not a checker fault.
+    val = validated_tree()
+    cur = tree_digests()
+    same_tree = bool(val) and all(val.get(k) == v for k, v in cur.items())
+    inconclusive = []
+    if failed and not same_tree:
+        inconclusive, failed = failed, []
     return {'mutants_run': len(mine), 'faults_detected': nf, 'twins_silent': nt, 'skipped_not_applicable': skipped,
-            'failed': failed, 'detail': detail}
+            'failed': failed, 'inconclusive_on_modified_tree': inconclusive, 'tree_is_the_validated_one': same_tree, 'detail': detail}
